@@ -37,8 +37,8 @@ TIE_THEOREMS = {"tables_ok_rydberg", "tables_ok_raman", "tables_ok_microwave", "
                 "device_tables_ok", "noise_tables_ok"}
 
 COUNTS = {  # objects per family
-    "quick": dict(channel=1000, device=700, layout=1000, noise=1000, simconfig=800, register=1000, detmap=1000,
-                  config=1000, results=1000),
+    "quick": dict(channel=1000, device=600, layout=1000, noise=1000, simconfig=800, register=1000, detmap=1000,
+                  config=900, results=1000),
     "thorough": dict(channel=8000, device=6000, layout=10000, noise=10000, simconfig=6000, register=10000,
                      detmap=10000, config=8000, results=10000),
 }
@@ -60,8 +60,8 @@ UNCOVERED = [
     "object, not by a theorem (the theorem covers key sets only)",
     "registers, detuning maps, emulation configurations (observables, states, operators) and results: "
     "correspondence-free object round-trip monitor only (no Lean model)",
-    "NoiseModel JSON round-trip: model/implementation correspondence + monitor + a Lean counterexample for the "
-    "known finding; no general Lean theorem",
+    "NoiseModel JSON round-trip: theorem noise_roundtrip holds under the proviso that parameters no active noise "
+    "type uses are unset (the code violates the unrestricted statement: finding C17-F3, Lean counterexample)",
     "float rounding of temperature/1e6*1e6 in SimConfig: theorem is over Q, monitor uses rtol 1e-12",
     "aliasing clause (objects never share state): monitor only — Python object identity / class attributes / "
     "mutable defaults are outside the Lean model",
@@ -388,7 +388,7 @@ def classify_build_failure(out: str) -> tuple[bool, list[str]]:
 
 def lean_obligations():
     thms = common.property_theorems(PROP)
-    bad = common.lean_forbidden_tokens()
+    bad = common.lean_forbidden_tokens([f"Properties.{PROP}"] if "PROP" in globals() else None)
     if bad:
         raise InfraError("forbidden tokens in Lean sources: " + "; ".join(bad[:5]))
     axioms = common.audit_axioms(f"Properties.{PROP}", thms) if thms else {}
